@@ -72,7 +72,9 @@ func NewScanner(file string, r io.Reader) *Scanner {
 // attacker controls, in a parser whose job is to survive untrusted phylum
 // source.
 func NewScannerString(file, src string) *Scanner {
-	return newScannerBuf(file, strings.NewReader(src), make([]byte, len(src)))
+	// One byte more than src: the window of a scanner that has all of its
+	// input is then never full, which is what TokenTooLarge tests.
+	return newScannerBuf(file, strings.NewReader(src), make([]byte, len(src)+1))
 }
 
 // SetPath associates a physical location (e.g. filesystem path) with s to aid
@@ -380,6 +382,18 @@ func (s *Scanner) Loc() *Location {
 		Pos:  s.totalPos,
 		Col:  s.totalPos - s.linePos + 1,
 	}
+}
+
+// TokenTooLarge reports whether the text scanned since the last call to
+// EmitToken or Ignore fills the whole window.  The window cannot slide any
+// further then, so Peek and the Accept functions stop as they do at the end of
+// a token although the token may continue in the unread input.  A caller that
+// scans with those functions has to test this before it emits the text, or a
+// token larger than the window is cut in two without any error.
+func (s *Scanner) TokenTooLarge() bool {
+	// The window may end inside a multi-byte rune, so "full" means that what
+	// is left of it is not a whole rune.
+	return s.start == 0 && len(s.buf) > 0 && len(s.buf) == cap(s.buf) && !utf8.FullRune(s.buf[s.next:])
 }
 
 func (s *Scanner) checkExtend() error {
